@@ -1021,6 +1021,10 @@ impl Shr<NNum> for NNum {
     fn shr(self, other: NNum) -> Self {
         match (self, other.to_usize()) {
             (NNum::Int(a), Some(s)) => NNum::Int(a >> s),
+            // a nonnegative count too large for usize shifts out every bit: floor(a / 2^count)
+            (NNum::Int(a), None) if matches!(&other, NNum::Int(b) if b.sign() == Sign::Plus) => {
+                NNum::Int(NInt::Small(if a.sign() == Sign::Minus { -1 } else { 0 }))
+            }
             _ => NNum::Float(f64::NAN),
         }
     }
